@@ -67,7 +67,39 @@ def _increments(stmts, adr: str, mult: Tuple[str, ...], size: Dict[str, int]):
       raise AnalysisError(f"unsupported-construct conditional inside state branch at line {st.lineno}")
 
 
-def extract_layout(fi, state_param: str) -> Tuple[Dict[str, Branch], dict]:
+def _inline_helpers(stmts, helpers, depth=0):
+  """Splice the bodies of statement-level calls to module-level helper funcs (`_copy_span(src, w, a, b, n, dst)`) into the
+  branch, parameters replaced by the argument expressions: a row copy moved into a helper keeps its layout."""
+  import copy
+
+  out = []
+  for st in stmts:
+    call = st.value if isinstance(st, ast.Expr) and isinstance(st.value, ast.Call) else None
+    fn = helpers.get(call.func.id) if call is not None and isinstance(call.func, ast.Name) else None
+    if fn is not None and depth < 3 and not any(isinstance(x, ast.Return) and x.value is not None for x in ast.walk(fn)) and not call.keywords:
+      params = [a.arg for a in fn.args.args]
+      if len(params) == len(call.args):
+        sub = dict(zip(params, call.args))
+
+        class R(ast.NodeTransformer):
+          def visit_Name(self, n):
+            return copy.deepcopy(sub[n.id]) if n.id in sub else n
+
+        body = [R().visit(copy.deepcopy(b)) for b in fn.body if not (isinstance(b, ast.Expr) and isinstance(b.value, ast.Constant))]
+        for b in body:
+          ast.fix_missing_locations(ast.copy_location(b, st))
+        out += _inline_helpers(body, helpers, depth + 1)
+        continue
+    if isinstance(st, (ast.For, ast.While, ast.If)):
+      st = copy.copy(st)
+      st.body = _inline_helpers(st.body, helpers, depth)
+      if getattr(st, "orelse", None):
+        st.orelse = _inline_helpers(st.orelse, helpers, depth)
+    out.append(st)
+  return out
+
+
+def extract_layout(fi, state_param: str, helpers=None) -> Tuple[Dict[str, Branch], dict]:
   """Per `element == State.X` branch: fields touched, total size, casts. Also structural facts of the driver loop."""
   facts = {"loop": None, "element": None, "sig_test": None}
   branches: Dict[str, Branch] = {}
@@ -102,7 +134,8 @@ def extract_layout(fi, state_param: str) -> Tuple[Dict[str, Branch], dict]:
       mem = (right if "State." in right else left).split("State.")[-1].split(".")[0]
       b = Branch(mem)
       b.loc = node.lineno
-      for sub in node.body:
+      body = _inline_helpers(node.body, helpers or {})
+      for sub in body:
         for x in ast.walk(sub):
           if isinstance(x, ast.Subscript) and isinstance(x.value, ast.Name):
             nm = x.value.id
@@ -114,13 +147,21 @@ def extract_layout(fi, state_param: str) -> Tuple[Dict[str, Branch], dict]:
           if isinstance(x, ast.Call) and dotted(x.func) in ("float", "bool"):
             b.casts.add(dotted(x.func))
       nonlocal_adr = None
-      for sub in node.body:
+      for sub in body:
         for x in ast.walk(sub):
           if isinstance(x, ast.AugAssign) and isinstance(x.target, ast.Name):
             nonlocal_adr = x.target.id
       if nonlocal_adr is None:
         raise AnalysisError(f"unsupported-construct no address increment in branch {mem} of {fi.key}")
-      _increments(node.body, nonlocal_adr, (), b.size)
+      _increments(body, nonlocal_adr, (), b.size)
+      # copy extent: a loop `for j in range(X)` that moves state[adr + j] without advancing adr inside moves X cells
+      b.copy_extents = []
+      for sub in body:
+        if isinstance(sub, ast.For) and isinstance(sub.iter, ast.Call) and dotted(sub.iter.func) == "range" and len(sub.iter.args) == 1 and isinstance(sub.target, ast.Name):
+          inner_inc = any(isinstance(x, ast.AugAssign) and isinstance(x.target, ast.Name) and x.target.id == nonlocal_adr for x in ast.walk(sub))
+          uses = [x for x in ast.walk(sub) if isinstance(x, ast.Subscript) and isinstance(x.value, ast.Name) and x.value.id == state_param]
+          if uses and not inner_inc:
+            b.copy_extents.append(unparse(sub.iter.args[0]))
       if mem in branches:
         raise AnalysisError(f"duplicate branch for State.{mem} in {fi.key}")
       branches[mem] = b
@@ -198,8 +239,9 @@ def run(db, res, tier):
 
   get_fi = _entry_kernel("support.get_state")
   set_fi = _entry_kernel("support.set_state")
-  gb, gf = extract_layout(get_fi, "state_out")
-  sb, sf = extract_layout(set_fi, "state_in")
+  helpers = {name: f.node for name, f in sm.module(get_fi.module).funcs.items() if f.node is not get_fi.node and f.node is not set_fi.node}
+  gb, gf = extract_layout(get_fi, "state_out", helpers)
+  sb, sf = extract_layout(set_fi, "state_in", helpers)
   oracle = mujoco_layouts.STATE_ELEMENTS
   # driver loop: ascending over all NSTATE bits with element = 1 << i
   for name, f in (("get_state", gf), ("set_state", sf)):
@@ -220,6 +262,8 @@ def run(db, res, tier):
         continue
       got = _norm_size(_size_str(b.size))
       res.ob(got == _norm_size(size), cons + "|size", Finding("R-LAYOUT.3", f"support.{kind}_state|State.{mem}|size", f"{kind}_state advances the state address by {got} for State.{mem}; mj_stateSize uses {size}", f"{fi.file}:{b.loc}"), sample={"fn": f"{kind}_state", "element": mem, "fields": sorted(b.fields), "size": got, "oracle": size})
+      for ext in getattr(b, "copy_extents", []):
+        res.ob(_norm_size(ext) == got, cons + "|copy-extent", Finding("R-LAYOUT.3", f"support.{kind}_state|State.{mem}|copy-extent", f"{kind}_state moves {ext} cells of State.{mem} but advances the state address by {got}: the element is truncated or overlaps the next one", f"{fi.file}:{b.loc}"))
       res.ob(b.fields == {field}, cons + "|field", Finding("R-LAYOUT.4", f"support.{kind}_state|State.{mem}|field", f"{kind}_state moves {sorted(b.fields)} for State.{mem}; MuJoCo moves `{field}`", f"{fi.file}:{b.loc}"))
       # offsets used inside the branch are `adr + <loopvar>` or `adr + c` with c < per-item width
       width = [k for s, k in b.size.items()]
